@@ -3,14 +3,14 @@ Root over a real client and real storage servers, and observe (a) the HTTP statu
 objects' share files changed and whether new storage indexes appeared, (c) which secrets (write keys / read keys
 of the objects of the tree) occur in the response.
 
-The tree (object names are the Spec's):
+The tree (object names and link names are those of spec/frontends/WebAuthority.tla):
 
-  ROOT (dir) --imm--> IMM (CHK)          --lit--> LIT            --mut--> M1 (SDMF, linked rw)
-             --romut--> M2 (SDMF, linked with its read-only cap only)
-             --sub--> SUB (dir, rw) --f--> SF (CHK), --m--> M3 (MDMF, rw)
-             --rosub--> D2 (dir, linked with its read-only cap only)
-             --d2rw--> D2 (the same directory, linked rw: the rw node of D2 is live in the gateway)
-  D2 (dir)   --f--> DF (CHK), --m--> M4 (SDMF, rw inside D2), --d--> D3 (dir, rw inside D2) --x--> XF (CHK)
+  ROOT --f--> IMM (CHK)  --lit--> LIT  --m--> M1 (SDMF, rw link)  --romut--> M2 (SDMF, linked by its read-only cap)
+       --sub--> SUB (rw link)   --rosub--> D2 (linked by its read-only cap)   --d2rw--> D2 (same directory, rw link)
+  SUB  --f--> SF (CHK)   --m--> M3 (MDMF, rw link)
+  D2   --f--> DF (CHK)   --m--> M4 (SDMF, rw link)   --d--> D3 (rw link)
+  D3   --f--> XF (CHK)
+  SPARE: a mutable file outside the tree whose read-only cap is what t=uri / set_children link.
 
 Input  {"requests": [{"id", "op", "start": {"obj", "auth"}, "path": [names], "args": {...}}, ...], "order": [...]}
 Output {"results": {id: {"status", "changed": [objs], "new_objects": n, "leaks": [[obj, "write"|"read"]], "body": "..."}}}
@@ -62,10 +62,10 @@ class Tree:
         M1 = mut("M1", b"m1 contents", SDMF_VERSION); M2 = mut("M2", b"m2 contents", SDMF_VERSION)
         M3 = mut("M3", b"m3 contents, mdmf", MDMF_VERSION); M4 = mut("M4", b"m4 contents", SDMF_VERSION)
         ROOT, SUB, D2, D3 = mkdir("ROOT"), mkdir("SUB"), mkdir("D2"), mkdir("D3")
-        run(D3.set_node("x", XF))
+        run(D3.set_node("f", XF))
         run(D2.set_node("f", DF)); run(D2.set_node("m", M4)); run(D2.set_node("d", D3))
         run(SUB.set_node("f", SF)); run(SUB.set_node("m", M3))
-        run(ROOT.set_node("imm", IMM)); run(ROOT.set_node("lit", LIT)); run(ROOT.set_node("mut", M1))
+        run(ROOT.set_node("f", IMM)); run(ROOT.set_node("lit", LIT)); run(ROOT.set_node("m", M1))
         run(ROOT.set_uri("romut", None, M2.get_readonly_uri()))
         run(ROOT.set_node("sub", SUB))
         run(ROOT.set_uri("rosub", None, D2.get_readonly_uri()))
@@ -172,6 +172,12 @@ class Runner:
     # ---- request construction: the Spec's abstract request -> HTTP ----
     def http(self, rq):
         caps = self.tree.caps
+        if rq["op"] == "GET_private":
+            tok = rq["args"]["t"]
+            real = self.w.client.get_auth_token().decode()
+            hdr = {"no_token": None, "wrong_token": "tahoe-lafs " + real[:-1] + ("A" if real[-1] != "A" else "B"),
+                   "right_token": "tahoe-lafs " + real, "right_token_wrong_scheme": "Bearer " + real}[tok]
+            return "GET", "/private/logs/v1", ({"Authorization": hdr} if hdr else {}), None
         start = caps[rq["start"]["obj"]][rq["start"]["auth"]]
         url = "/uri/" + q(start) + "".join("/" + q(n) for n in rq["path"])
         op, a = rq["op"], rq.get("args", {})
@@ -263,9 +269,14 @@ class Runner:
         self.grid.drain(max_timer=1.0)
         after = self.obs.snapshot()
         changed, new = self.obs.diff(before, after)
+        shown = url
+        for obj, cs in self.tree.caps.items():
+            for lvl, cap in cs.items():
+                if cap:
+                    shown = shown.replace(q(cap), "$%s.%s" % (obj, lvl))
         res = {"status": status, "changed": changed, "new_objects": len(new), "error": err,
-               "leaks": self.leaks(text + hdrtext, rq.get("may_appear", {})), "body": text[:300],
-               "http": "%s %s" % (method, url.replace(self.tree.caps[rq["start"]["obj"]][rq["start"]["auth"]].replace(":", "%3A"), "$" + rq["start"]["obj"] + "." + rq["start"]["auth"]))}
+               "leaks": self.leaks(text + hdrtext, rq.get("may_appear", {})), "body": text[:200],
+               "http": "%s %s" % (method, shown)}
         if after != self.base:
             self.restore()
         return res
